@@ -353,7 +353,7 @@ class smrt_matrix(object):
 
     def to_dense(self):
             if self.mtype in ["dense5", "dense4"]:
-                return self.copy()
+                return smrt_matrix(self.values.copy(), mtype=self.mtype)
             elif self.mtype == "diagonal4":
                 pola, inc = self.values.shape
 
